@@ -205,7 +205,166 @@ def approxRelPw (f g : List (List FX)) (eps mr : FX) (impl : Out) : Option Strin
     if b == spec then none else some "piecewise relative_eq is not (same length ∧ number-by-number)"
   | _ => some "unexpected output shape"
 
-def linear (_ks : List (Knot FX)) (_impl : Out) : Option String := none
-def spline (_ks : List (Knot FX)) (_impl : Out) : Option String := none
+/-! ## constructors: exact-rational checks of what `linear` / `constrained_spline` returned -/
+
+def u53 : Rat := pow2 (-53)
+
+def evalPolyRat (cs : List Rat) (x : Rat) : Rat := cs.foldr (fun c acc => c + x * acc) 0
+def derivCoeffs : List Rat → List Rat
+  | [] => []
+  | _ :: cs => (cs.zipIdx.map fun (c, i) => ((i : Nat) + 1 : Rat) * c)
+
+def knotsRat (ks : List (Knot FX)) : Option (List (Rat × Rat)) :=
+  ks.mapM fun k => match unv k.x, unv k.y with
+    | some x, some y => match x.toRat?, y.toRat? with
+      | some a, some b => some (a, b)
+      | _, _ => none
+    | _, _ => none
+
+def segsRat (l : List (FX × List FX)) : Option (List (F64 × List Rat)) :=
+  l.mapM fun (e, ns) => match unv e, ns.mapM (fun n => (unv n).bind F64.toRat?) with
+    | some e, some cs => some (e, cs)
+    | _, _ => none
+
+def rmax (a b : Rat) : Rat := if a < b then b else a
+
+/-- C06 -/
+def linear (ks : List (Knot FX)) (impl : Out) : Option String :=
+  if ks.length < 2 then (match impl with | .panic => none | _ => some "fewer than 2 knots must be rejected")
+  else
+  match impl with
+  | .panic => some "panic on >= 2 knots"
+  | .segs rs =>
+    if rs.length + 1 != ks.length then some "not one segment per consecutive knot pair" else
+    match ks.mapM (fun k => unv k.x), ks.mapM (fun k => unv k.y), segsRat rs with
+    | some xs, some ys, some segs =>
+      if xs.any F64.isNaN then none else
+      -- forced abscissae: running maximum (f64::max)
+      let forced := (xs.tail.foldl (fun (acc : List F64) x => acc ++ [F64.max (acc.getLast?.getD x) x]) [xs.head!])
+      if (segs.map (·.1)) != forced.tail then some "ends are not the running maximum of the abscissae" else
+      if !(List.zip forced forced.tail).all (fun (a, b) => F64.le a b) then some "ends are not non-decreasing" else
+      match forced.mapM F64.toRat?, ys.mapM F64.toRat? with
+      | some fx, some fy =>
+        let rows := List.zip (List.zip (List.zip fx fx.tail) (List.zip fy fy.tail)) (List.zip (List.zip forced forced.tail) segs)
+        rows.findSome? fun (((x0, x1), (y0, y1)), ((f0, f1), (_, cs))) =>
+          let dx := F64.sub f1 f0
+          let narrow := F64.lt dx F64.epsilon
+          let slope := if x1 == x0 then 0 else (y1 - y0) / (x1 - x0)
+          let tol := u53 * 64 * (ratAbs y0 + ratAbs y1 + ratAbs slope * (ratAbs x0 + ratAbs x1))
+          if cs.length != 2 then some "segment is not a Poly1"
+          else if narrow then
+            (if cs != [y0, 0] then some "a segment narrower than machine epsilon must be the constant y0" else none)
+          else if ratAbs (evalPolyRat cs x0 - y0) > tol then some "segment does not pass through its (forced) left knot"
+          else if ratAbs (evalPolyRat cs x1 - y1) > tol then some "segment at least epsilon wide does not pass through its right knot"
+          else none
+      | _, _ => none
+    | _, _, _ => none
+  | _ => some "unexpected output shape"
+
+/-- exact Kruger slope at an interior knot -/
+def fdxRat (k0 k1 k2 : Rat × Rat) : Rat :=
+  let s01 := (k1.2 - k0.2) / (k1.1 - k0.1)
+  let s12 := (k2.2 - k1.2) / (k2.1 - k1.1)
+  if s01 * s12 ≤ 0 then 0 else 2 * s01 * s12 / (s01 + s12)
+
+/-- minimum over [a,b] of the quadratic with coefficients q = [q0,q1,q2] times the sign sg -/
+def quadMinSigned (q : List Rat) (a b sg : Rat) : Rat :=
+  let f := fun x => sg * evalPolyRat q x
+  let m := if f a < f b then f a else f b
+  match q with
+  | [_, q1, q2] =>
+    if q2 == 0 then m else
+      let v := -q1 / (2 * q2)
+      if a < v && v < b && f v < m then f v else m
+  | _ => m
+
+/-- C04 + C05 -/
+def spline (ks : List (Knot FX)) (impl : Out) : Option String :=
+  if ks.length < 3 then (match impl with | .panic => none | _ => some "fewer than 3 knots must be rejected")
+  else
+  match impl with
+  | .panic => some "panic on >= 3 knots"
+  | .segs rs =>
+    if rs.length + 1 != ks.length then some "not one cubic per knot interval" else
+    match ks.mapM (fun k => unv k.x), knotsRat ks, segsRat rs with
+    | some xs, some kr, some segs =>
+      if (segs.map (·.1)) != xs.tail then some "segment ends are not the right abscissae verbatim" else
+      if !(List.zip kr kr.tail).all (fun (a, b) => a.1 < b.1) then none else
+      let n := kr.length
+      -- exact slopes at every knot
+      let mid := (List.zip (List.zip kr kr.tail) kr.tail.tail).map fun ((a, b), c) => fdxRat a b c
+      let sec := (List.zip kr kr.tail).map fun (a, b) => (b.2 - a.2) / (b.1 - a.1)
+      let f0 := (3 / 2 : Rat) * sec.head! - mid.head! / 2
+      let fn := (3 / 2 : Rat) * sec.getLast! - mid.getLast! / 2
+      let fall := f0 :: mid ++ [fn]
+      let rows := List.zip (List.zip (List.zip kr kr.tail) (List.zip fall fall.tail)) (List.zip sec segs)
+      let perSeg := rows.findSome? fun (((k0, k1), (e0, e1)), (s, (_, cs))) =>
+        let dx := k1.1 - k0.1
+        let X := rmax (ratAbs k0.1) (ratAbs k1.1)
+        let r := X / dx
+        let M := ratAbs s + ratAbs e0 + ratAbs e1
+        let tol := u53 * 4096 * (ratAbs k0.2 + ratAbs k1.2 + M * (dx + X) * (1 + r + r * r))
+        let told := tol / dx
+        let d := derivCoeffs cs
+        if cs.length != 4 then some "segment is not a cubic"
+        else if ratAbs (evalPolyRat cs k0.1 - k0.2) > tol then some "cubic does not pass through the left knot of its interval"
+        else if ratAbs (evalPolyRat cs k1.1 - k1.2) > tol then some "cubic does not pass through the right knot of its interval"
+        else if ratAbs (evalPolyRat d k0.1 - e0) > told then some "slope at the left knot is not the Kruger slope (harmonic mean / end rule / 0 at an extremum)"
+        else if ratAbs (evalPolyRat d k1.1 - e1) > told then some "slope at the right knot is not the Kruger slope (harmonic mean / end rule / 0 at an extremum)"
+        else
+          let sg : Rat := if s < 0 then -1 else 1
+          if quadMinSigned d k0.1 k1.1 sg < -told then some "cubic is not monotone on its interval (overshoot)"
+          else none
+      match perSeg with
+      | some w => some w
+      | none =>
+        -- C1 at interior knots: adjacent cubics have the same first derivative
+        let pairs := List.zip (List.zip segs segs.tail) (List.zip kr.tail (List.zip (List.zip kr kr.tail) (List.zip kr.tail kr.tail.tail)))
+        let _ := n
+        pairs.findSome? fun (((_, ca), (_, cb)), (k, ((a0, a1), (b0, b1)))) =>
+          let tolA := u53 * 4096 * (ratAbs a0.2 + ratAbs a1.2 + ratAbs k.2) * (1 + (ratAbs k.1) / (a1.1 - a0.1)) ^ 3 / (a1.1 - a0.1)
+          let tolB := u53 * 4096 * (ratAbs b0.2 + ratAbs b1.2 + ratAbs k.2) * (1 + (ratAbs k.1) / (b1.1 - b0.1)) ^ 3 / (b1.1 - b0.1)
+          if ratAbs (evalPolyRat (derivCoeffs ca) k.1 - evalPolyRat (derivCoeffs cb) k.1) > tolA + tolB + u53 * 4096 * (ratAbs (evalPolyRat (derivCoeffs ca) k.1))
+          then some "first derivative jumps at an interior knot" else none
+    | _, _, _ => none
+  | _ => some "unexpected output shape"
+
+/-- C07 / C08 / C14 number-level checks on polynomial calculus results -/
+def calculus (cmd : String) (tag : Option String) (nums : List FX) (knot : List FX) (impl : Out) : Option String :=
+  match tag with
+  | some t =>
+    if !t.startsWith "p" then none else
+    match nums.mapM unv, impl with
+    | some cs, .nums rs =>
+      match rs.mapM unv with
+      | none => none
+      | some out =>
+        if cmd == "deriv" then
+          let expect : List F64 := match cs with
+            | [] => []
+            | [_] => [F64.zero false]
+            | _ :: rest => rest.zipIdx.map fun (c, i) => if i == 0 then c else F64.mul (F64.ofDec ((i : Nat) + 1) 0) c
+          if out == expect then none else some "derivative coefficient i is not the correctly rounded (i+1)*c_(i+1)"
+        else if cmd == "indef" then
+          let expect : List F64 := F64.zero false :: cs.zipIdx.map fun (c, i) => if i == 0 then c else F64.div c (F64.ofDec ((i : Nat) + 1) 0)
+          if out != expect then some "indefinite integral is not (0, c0, c1/2, ..., ck/(k+1)) correctly rounded"
+          else
+            -- differentiating the result returns p coefficient-wise to within one ulp
+            let back : List F64 := out.tail.zipIdx.map fun (c, i) => if i == 0 then c else F64.mul (F64.ofDec ((i : Nat) + 1) 0) c
+            if (List.zip back cs).all (fun (b, c) => b == c || b == F64.nextUp c || b == F64.nextDown c) then none
+            else some "derivative of the indefinite integral is more than one ulp away from p"
+        else if cmd == "integral" then
+          match out.mapM F64.toRat?, knot.mapM (fun k => (unv k).bind F64.toRat?), cs.mapM F64.toRat? with
+          | some oc, some [kx, ky], some cr =>
+            let mag := (cr.zipIdx.map fun (c, i) => ratAbs c * (ratAbs kx) ^ (i + 1)).foldl (· + ·) 0
+            let tol := u53 * 64 * (ratAbs ky + mag)
+            if ratAbs (evalPolyRat oc kx - ky) > tol then some "integral(knot) does not pass through the knot"
+            else if oc.tail != (match (F64.zero false :: cs.zipIdx.map fun (c, i) => if i == 0 then c else F64.div c (F64.ofDec ((i : Nat) + 1) 0)).tail.mapM F64.toRat? with | some l => l | none => [])
+              then some "integral(knot) differs from indefinite() in more than the constant term"
+            else none
+          | _, _, _ => none
+        else none
+    | _, _ => none
+  | none => none
 
 end Mon
